@@ -31,7 +31,7 @@ def cases(draw):
     if b == "kotlin":
         kotlin_error_attrs(prog)
     if b == "kotlin" and draw(st.integers(0, 2)) == 0:
-        S.add_trait(draw, prog)
+        S.add_trait(draw, prog)       # (a method disabled for kotlin loses its vtable slot: known finding, probed in run_probes)
     # a third of the programs rename some types for this backend and carry abi_renames: the native mirrors and every declaration
     # naming them must still resolve (under either the renamed or the Rust name, but consistently)
     if draw(st.integers(0, 2)) == 0:
@@ -126,7 +126,19 @@ def check_program(art, work, b, prog):
                         for q in m["params"]:
                             if q[1][0] == "raw" and q[1][1].startswith("impl "):
                                 tr = next(x for x in prog["traits"] if x["name"] == q[1][1][5:])
+                                # the vtable mirror: destructor, size, alignment, then one function pointer per trait method in
+                                # declaration order -- every method, the Rust vtable has no notion of a backend-disabled one
+                                vt = "DiplomatTrait_%s_VTable_Native" % tr["name"]
+                                want_order = ["destructor", "size", "alignment"] + ["run_%s_callback" % tm["name"] for tm in tr["methods"]]
+                                got_order = parsed.field_orders.get(vt)
+                                cases_.append(([b, "trait-vtable", want_order], any(tm.get("disabled_for") for tm in tr["methods"]), "trait-vtable"))
+                                if got_order is None:
+                                    fails.append(("trait-vtable", "%s: no vtable structure %s found" % (b, vt)))
+                                elif got_order != want_order:
+                                    fails.append(("trait-vtable", "%s: %s lists the fields %s, the Rust vtable is laid out as %s" % (b, vt, got_order, want_order)))
                                 for tm in tr["methods"]:
+                                    if "kotlin" in (tm.get("disabled_for") or []):
+                                        continue      # (its interface may be absent; the slot itself is checked above)
                                     rn = "Runner_DiplomatTraitMethod_%s_%s" % (tr["name"], tm["name"])
                                     want_ps = [("ptr",)] + [abi.abi_type(prog, a) for _, a in tm["params"]]
                                     want_ret = abi.abi_type(prog, tm["ret"]) if tm["ret"] else ("void",)
@@ -214,6 +226,11 @@ def run_probes(art):
         open(entry, "w").write(pr["lib_rs"])
         r = tool.run_backend(art, pr["backend"], entry, os.path.join(work, "out"), config=CONFIGS[pr["backend"]][0])
         if not r.ok:
+            continue
+        if pr.get("vtable"):
+            got = dartkt.Kotlin(r.outdir).field_orders.get(pr["vtable"])
+            if got is not None and got == pr["observed_order"] and got != pr["rust_order"]:
+                seen.append(f["what"])
             continue
         try:
             parsed = dartkt.Kotlin(r.outdir) if pr["backend"] == "kotlin" else dartkt.Dart(r.outdir)
